@@ -20,6 +20,7 @@ TICK_NS = 1_000_000
 os.environ["OXMPL_VERIF_CLOCK_TICK_NS"] = str(TICK_NS)
 sys.path.insert(0, os.path.join(VERIF, "target", "py", "site"))
 OXSIM = os.path.join(VERIF, "target", "sim", "release", "oxsim")
+OUT = os.environ.get("VERIF_OUT") or VERIF  # where evidence and replay files go
 
 # the bindings print Python tracebacks of failing callbacks to stderr and planner progress to
 # stdout: keep our own channel
@@ -505,10 +506,10 @@ def oxsim(*args):
 
 
 def write_replay(prop, sig, scn, extra=None):
-    os.makedirs(os.path.join(VERIF, "replays"), exist_ok=True)
+    os.makedirs(os.path.join(OUT, "replays"), exist_ok=True)
     import hashlib
     h = hashlib.sha1((sig + json.dumps(scn, sort_keys=True)).encode()).hexdigest()[:12]
-    path = os.path.join(VERIF, "replays", f"{prop}-py-{h}.json")
+    path = os.path.join(OUT, "replays", f"{prop}-py-{h}.json")
     doc = {"engine": "pysim", "property": prop, "expect": {"violation": sig}, "scenario": scn}
     if extra:
         doc.update(extra)
@@ -590,6 +591,7 @@ def do_check(prop, tier):
     queries = 0
     mix = {}
     samples = []
+    results_log = []
     for i, doc in enumerate(docs):
         scn = doc["scenario"]
         try:
@@ -598,6 +600,7 @@ def do_check(prop, tier):
             say(f"harness error: scenario {i}: {type(e).__name__}: {e}")
             sys.exit(2)
         evaluations += 1
+        results_log.append([i, r[0] if r else None, nt, aux])
         key = f"{scn['planner']['kind']}/{scn['space']['kind']}"
         mix[key] = mix.get(key, 0) + 1
         if nt:
@@ -646,6 +649,8 @@ def do_check(prop, tier):
             path = write_replay(prop, sig, docs[first]["scenario"])
         replays.append(path)
         say(f"VIOLATION property={prop} replay={path} sig={sig} count={len(items)} :: {detail}")
+    import hashlib
+    digest = hashlib.sha1(json.dumps(results_log, sort_keys=True).encode()).hexdigest()[:16]
     wall = time.time() - t0
     rule = {
         "C19": "scenario i (6 problem-definition variants x 4 planners round-robin, generated worlds / parameters / seeds restricted to what the Python API can express, fixed goal sample, budgets as time limits under the shared virtual clock of 1 ms per read) is executed by the Rust core (reference) and through oxmpl_py (system under test); RRT / RRT-Connect / RRT* results compared bit for bit incl. error texts, PRM for soundness w.r.t. the Python callbacks; plus the wrapper-constructor lattice (ValueError iff core Err, distance / extent / stored values bit-equal); distinct = distinct scenario or case; non-trivial = a path was returned (planner scenarios) or the case was evaluated to agreement (wrapper cases)",
@@ -669,15 +674,15 @@ def do_check(prop, tier):
             "scenario_mix": mix,
             "components": {"real": ["oxmpl_py extension built from /repo (pyo3 glue, PyGoal, PyStateValidityChecker, variant dispatch, PyPath)", "oxmpl core underneath"],
                            "virtual": ["clock inside the timed functions"], "reference": ["Rust core driven by oxsim"], "not_run": ["oxmpl-js (no wasm32 target in the sandbox)"]},
-            "known_findings_hit": known_hit, "replays": replays,
+            "known_findings_hit": known_hit, "replays": replays, "run_digest": digest,
         },
         "assumptions": ["Python callbacks use only comparisons and the wrapper's own space.distance, so their arithmetic is bit-identical to the Rust reference", "the JS clause of C20 is not decided"],
         "wall_s": wall, "violations": n_viol,
     }
-    os.makedirs(os.path.join(VERIF, "evidence"), exist_ok=True)
-    with open(os.path.join(VERIF, "evidence", f"{prop}.json"), "w") as f:
+    os.makedirs(os.path.join(OUT, "evidence"), exist_ok=True)
+    with open(os.path.join(OUT, "evidence", f"{prop}.json"), "w") as f:
         json.dump(ev, f, indent=1)
-    say(f"[{prop}] scenarios={evaluations} wrapper_cases={wrapper_cases} nontrivial={len(nontrivial)} violations={n_viol} wall={wall:.1f}s")
+    say(f"[{prop}] scenarios={evaluations} wrapper_cases={wrapper_cases} nontrivial={len(nontrivial)} violations={n_viol} digest={digest} wall={wall:.1f}s")
     return exit_code
 
 
